@@ -4,9 +4,12 @@ Lines == ndJsonDeserialize(IOEnv.TRACE)
 VARIABLES l
 E == Lines[l]
 Why(s, o) ==
-  {w \in {"hang", "crash", "malformed-sol", "dims", "sol-missing", "code-class", "no-message", "unexpected-sol", "exit-status", "no-diagnostic"} :
+  {w \in {"hang", "crash", "malformed-sol", "dims", "sol-missing", "code-class", "no-message", "unexpected-sol", "exit-status", "no-diagnostic",
+          "alt-malformed", "alt-count"} :
      CASE w = "hang" -> o.hang
        [] w = "crash" -> o.crash
+       [] w = "alt-malformed" -> o.altBad # 0
+       [] w = "alt-count" -> o.altBad = 0 /\ ~AltOK(s, o)
        [] w = "malformed-sol" -> o.sol = "malformed"
        [] w = "dims" -> o.sol = "ok" /\ ~o.dimsOK
        [] w = "sol-missing" -> CanWriteSol(s) /\ o.sol # "ok"
